@@ -2,11 +2,12 @@
 """Print the sub-agent prompt for one property (property text only; nothing from /verif's machinery)."""
 import json, sys
 pid = sys.argv[1]
+labels = (sys.argv[2], sys.argv[3]) if len(sys.argv) > 3 else ("m1", "m2")
 for l in open('/verif/properties.jsonl'):
     p = json.loads(l)
     if p['id'] == pid:
         break
-wt = "/tmp/wt/%s" % pid.lower()
+wt = "/tmp/wt/%s%s" % (pid.lower(), "" if labels[0] == "m1" else "r" + labels[0])
 print(f"""You are helping to evaluate how well a semantic property of the C++ library libtins (mfontanini/libtins: packet crafting/parsing library) is protected against regressions. Your job: produce TWO different, realistic code changes ("mutations") to libtins, each of which BREAKS the property below while the library STILL COMPILES and the EXISTING TEST SUITE STILL PASSES, and for each a small demonstration program that fails with the change and passes without it.
 
 ## The property ({p['id']}: {p['title']})
@@ -32,7 +33,7 @@ There is no network access. Work only under {wt} and /tmp/wt/out/{pid}/.
 - The two mutations should use different mechanisms / different code sites (e.g. one a dropped or weakened check, the other a bookkeeping/ordering/table mistake), both breaking THIS property.
 - Memory-safety violations may be demonstrated with -fsanitize=address (build the demo and, if needed, rebuild the library objects you need with ASan), or by an observable wrong result.
 
-## Deliverables (write them to /tmp/wt/out/{pid}/m1/ and /tmp/wt/out/{pid}/m2/)
+## Deliverables (write them to /tmp/wt/out/{pid}/{labels[0]}/ and /tmp/wt/out/{pid}/{labels[1]}/)
 For each mutation mN:
   - patch.diff : `git diff` of the worktree for that mutation alone (relative to HEAD; must apply with `git apply` at the repo root)
   - demo.cpp (or demo.sh + sources): exits 0 on the unmodified library and non-zero (or sanitizer error) with the mutation
